@@ -167,7 +167,22 @@ def check_to_base(A, rep):
                     r_ = A.model.resolve_dotted(func.module, n.args[1]) if isinstance(n.args[1], (ast.Name, ast.Attribute)) else None
                     if r_ is not None and r_[0] == "class" and r_[1].name == "SyncedCollection":
                         ok = True
-        if ok:
+        # the converted copy is not chosen by truthiness: `conv or value` hands out the live node for an EMPTY child
+        b, g = A.graph(cls, "_to_base", "root", "none")
+        for n in live(g):
+            if n.kind == "local_mut" and own(n) and n["value"] is not None:
+                for x in n["value"].walk():
+                    if x.kind == "boolop":
+                        has_conv = any(y.kind == "call" and "_to_base" in str(y.args[0]) for y in x.walk())
+                        has_raw = any(y.kind in ("elem", "sub") and any(z.kind == "data" for z in y.walk()) for y in x.walk())
+                        if has_conv and has_raw:
+                            ok = None
+                            rep.fail("C16.f", norm_key("C16.f", func.qualname, "truthiness"),
+                                     f"{func.qualname}: `{n.stmt}` chooses between the converted copy and the stored node by truthiness: an empty nested collection converts to an empty (falsy) container, so the live synced node itself is handed out in the 'plain' result",
+                                     [n.where() + ": " + n.stmt], g.label)
+        if ok is None:
+            pass
+        elif ok:
             rep.ok("C16.f", f"C16.f {func.qualname}: nested synced dicts and lists are both recognised (and converted), scalars are not")
         else:
             rep.fail("C16.f", norm_key("C16.f", func.qualname), f"{func.qualname} does not recognise every kind of nested synced collection with its classifier ({[r.name for r in used]} == {lits[:1]}): some nested nodes are handed out live inside the 'plain' result", [func.loc], cls.name)
